@@ -17,9 +17,11 @@
     * `C01_call_recorded`: an ordinary call is recorded and all its arguments are visited;
     * `C01_unnameable_base_visited`: `(e).a` with an unnameable `e` visits `e`.
     * `C01_partial`: the full lower bound on the fragment "generic nodes over pure chains";
-    * `C01_partial_calls` / `_assign` / `_flow`: the lower bound (given success, and no custom
-      analyser hit) on the fragment extended by ordinary calls, then assignments (including the
-      class-instance diversion), then `del` / `for` / `with` / comprehensions / `return`.
+    * `C01_partial_calls` / `_assign` / `_flow`: the lower bound (given success) under the REAL
+      plugin table, on the fragment extended by ordinary calls (callee not resolving to a
+      custom-analysed symbol of the root context), then assignments (including the class-instance
+      diversion), then `del` / `for` / `with` / comprehensions / `return`;
+    * `C01_partial_success`: success itself on the call-free sub-fragment.
   Not proved: the lower bound over a fragment that also contains calls, assignments, loops, …
   (`C01_partial` of DESIGN §5 with the complete `dropped` table); the per-constructor facts
   above are its leaves.
@@ -127,41 +129,76 @@ theorem C01_partial (env : Env) (mn : Str) (root : Context) (ps : Params) (body 
 
 /-! ### wider fragments (shape of `C01_full`: IF the analysis succeeds THEN everything is present)
 
-`frag F` (Lemmas/VisitCover.lean) extends the fragment of `C01_partial` feature by feature. The
-hypothesis `NoPlugins env mn` says that no call hits a custom analyser (the calls that do are
-exactly the getattr-family / sorted / defaultdict findings `C01_cex_xattr_*`, `C01_cex_sorted`,
-`C01_cex_defaultdict`). Success is assumed, not proved: spelling a call ARGUMENT can crash the old
-namer (property C07). -/
+`frag D F` (Lemmas/VisitCover.lean) extends the fragment of `C01_partial` feature by feature.
+These theorems apply to the REAL plugin table. `D = dirtyKeys env mn root` is the (computed) list
+of keys under which the root context holds a symbol a custom analyser fires on — for the pinned
+configuration `getattr, hasattr, setattr, delattr, sorted` and whatever `collections.defaultdict`
+(or `collections`) was imported as; the fragment only asks that no callee name, nor a dotted
+prefix of it, is one of those keys (the calls that ARE are the findings `C01_cex_xattr_*`,
+`C01_cex_sorted`, `C01_cex_defaultdict`). `ModClean env mn`: no analyser is registered for a name
+of the analysed module itself. The proof threads the context invariant "a dirty symbol only sits
+under a key of `D`" through the whole visitor (`visit_ck`, Lemmas/VisitClean.lean). Success is
+assumed, not proved: spelling a call ARGUMENT can crash the old namer (property C07); on the
+sub-fragment without calls success is proved (`C01_partial_success`). -/
 
-/-- (a) + ordinary calls: callee a pure chain not rooted at a getattr-family builtin, arguments
-and keyword values in the fragment — the call record and every access in the arguments. -/
+/-- (a) + ordinary calls: callee a pure chain not rooted at a getattr-family builtin and not
+resolving to a custom-analysed symbol, arguments and keyword values in the fragment — the call
+record and every access in the arguments. -/
 theorem C01_partial_calls (env : Env) (mn : Str) (root : Context) (ps : Params) (body : List Node)
-    (s' : St) (hno : NoPlugins env mn) (hb : fragL ⟨true, false, false⟩ body = true)
+    (s' : St) (hm : ModClean env mn)
+    (hb : fragL (dirtyKeys env mn root) ⟨true, false, false⟩ body = true)
     (h : analyse env mn root ps body = .ok s') : ∀ a ∈ accessesL body, present a s' = true :=
-  analyse_cover hno hb h
+  analyse_cover hm hb h
 
 /-- (b) + assignments: `=` (any number of Store-chain / display targets), `op=`, annotated
 assignments; the value is not a lambda / `namedtuple` declaration (for annotated assignments also
 not a call / tuple / list: `C01_cex_annotation_class_assignment`). The class-instance diversion
 `x = Cls(…)` IS covered: target, call record and arguments are all reported. -/
 theorem C01_partial_assign (env : Env) (mn : Str) (root : Context) (ps : Params) (body : List Node)
-    (s' : St) (hno : NoPlugins env mn) (hb : fragL ⟨true, true, false⟩ body = true)
+    (s' : St) (hm : ModClean env mn)
+    (hb : fragL (dirtyKeys env mn root) ⟨true, true, false⟩ body = true)
     (h : analyse env mn root ps body = .ok s') : ∀ a ∈ accessesL body, present a s' = true :=
-  analyse_cover hno hb h
+  analyse_cover hm hb h
 
 /-- (c) + control flow: `del`, `for` (target, iterable, body, else), `with` (items, body),
 comprehensions (generators, conditions, element), `return` (incl. returned tuples / dicts and
 returned class instances). -/
 theorem C01_partial_flow (env : Env) (mn : Str) (root : Context) (ps : Params) (body : List Node)
-    (s' : St) (hno : NoPlugins env mn) (hb : fragL ⟨true, true, true⟩ body = true)
+    (s' : St) (hm : ModClean env mn)
+    (hb : fragL (dirtyKeys env mn root) ⟨true, true, true⟩ body = true)
     (h : analyse env mn root ps body = .ok s') : ∀ a ∈ accessesL body, present a s' = true :=
-  analyse_cover hno hb h
+  analyse_cover hm hb h
 
-/-- the same for any sub-tree of the fragment, from any state (with monotonicity bundled). -/
-theorem C01_partial_visit (env : Env) (mn : Str) (F : Feat) (hno : NoPlugins env mn) (n : Node)
-    (hn : frag F n = true) (s s' : St) (h : visit env mn n s = .ok s') :
-    IrLe s s' ∧ ∀ a ∈ accesses false n, present a s' = true :=
-  ⟨((visit_cvm env mn F hno n hn s).mono s' h).ir, (visit_cvm env mn F hno n hn s).cov s' h⟩
+/-- the same for any sub-tree of the fragment, from any state whose context satisfies the
+invariant (with monotonicity and re-establishment of the invariant bundled). -/
+theorem C01_partial_visit (env : Env) (mn : Str) (D : List Str) (F : Feat) (hm : ModClean env mn)
+    (n : Node) (hn : frag D F n = true) (s s' : St) (hI : Inv env mn D s)
+    (h : visit env mn n s = .ok s') :
+    IrLe s s' ∧ (∀ a ∈ accesses false n, present a s' = true) ∧ Inv env mn D s' := by
+  haveI : ModCleanC env mn := ⟨hm⟩
+  have hc := visit_cvm env mn D F n hn s hI
+  exact ⟨(hc.mono s' h).ir, hc.cov s' h, hc.inv s' h⟩
+
+/-- a call looked up in a context satisfying the invariant, under a name avoiding `D`, never hits
+a custom analyser. -/
+theorem C01_no_plugin_hit (env : Env) (mn : Str) (D : List Str) (c : Context) (callee : Str)
+    (b w : Bool) (hc : CtxAll (QD env mn D) c) (hk : keyOk D (lookupKey callee) = true) :
+    analyserFor env mn (Context.getCallTarget env.ctxEnv c callee b w).1 = none :=
+  getCallTarget_clean env mn D c callee b w hc hk
+
+/-- the context invariant is kept by the WHOLE visitor (every constructor), given `ModClean`. -/
+theorem C01_invariant_kept (env : Env) (mn : Str) (D : List Str) (hm : ModClean env mn) (n : Node)
+    (s s' : St) (hI : Inv env mn D s) (h : visit env mn n s = .ok s') : Inv env mn D s' := by
+  haveI : ModCleanC env mn := ⟨hm⟩
+  exact visit_ck (QD env mn D) env mn n s s' h hI
+
+/-- on the call-free sub-fragment (`simple`) the analysis SUCCEEDS, and that sub-fragment lies in
+every `frag D F`: the implication-shaped theorems above are not vacuous there. -/
+theorem C01_partial_success (env : Env) (mn : Str) (root : Context) (ps : Params)
+    (body : List Node) (hb : simpleL body = true) :
+    (∃ s', analyse env mn root ps body = .ok s') ∧ ∀ D F, fragL D F body = true := by
+  obtain ⟨s', hs, _⟩ := C01_partial env mn root ps body hb
+  exact ⟨⟨s', hs⟩, fun D F => fragL_of_simpleL D F body hb⟩
 
 /-- an ordinary call (its target has no custom analyser, its naming succeeds): a record named
 `without_call_brackets(fullname)` is added, then all positional arguments and all keyword values
@@ -399,9 +436,22 @@ example : simpleL [.other (S "If") [.other (S "Compare") [subs (att (nm "a") "b"
     expr (.seq (S "Tuple") [att (nm "x") "y", .dict [nm "k"] [att (nm "v") "w"]] .load)]] = true := by
   decide
 
-/-- an environment without custom analysers satisfies `NoPlugins`. -/
-def envNP : Env := { env0 with analysers := [] }
-example : NoPlugins envNP (S "m") := noPlugins_of_empty _ _ rfl
+/-- the REAL plugin table satisfies `ModClean` for the module `m`. -/
+example : ModClean env0 (S "m") := by unfold ModClean; decide
+
+/-- a root context as a user has it: the plugin-target builtins, `from collections import
+defaultdict`, plus ordinary functions, a class and an ordinary import. -/
+def root1 : Context :=
+  [root0.head! ++
+    [(S "f", { kind := .func, name := S "f", callable := true, iface := some ⟨[], [S "p"], none, [], some (S "kw")⟩ }),
+     (S "g", { kind := .func, name := S "g", callable := true, iface := some ⟨[], [S "p"], none, [], none⟩ }),
+     (S "h", { kind := .func, name := S "h", callable := true, iface := some ⟨[], [S "p"], none, [], none⟩ }),
+     (S "os", { kind := .import_, name := S "os", qual := S "os", modExists := true })]]
+
+/-- its dirty keys are exactly the six plugin targets. -/
+example : dirtyKeys env0 (S "m") root1 =
+    [S "getattr", S "hasattr", S "setattr", S "delattr", S "sorted", S "defaultdict"] := by
+  decide +kernel
 
 /-- `x = f(a.b, k=c.d); z: t.T = a; for i in xs: y += g(i)
     with o.p(q) as w: del w.v; r = [e.f for e in es if e.g]; return Cls(x), h(y)` -/
@@ -415,19 +465,27 @@ def bodyWide : List Node :=
      [.gen (nm "e" .store) (nm "es") [att (nm "e") "g"]]),
    .ret [.seq (S "Tuple") [call (nm "Cls") [nm "x"], call (nm "h") [nm "y"]] .load]]
 
-/-- `C01_partial_flow` is not vacuous: `bodyWide` is in the full fragment, its analysis (no custom
-analysers; `Cls` a class: the class-instance `return` path is taken) succeeds, and — as the theorem
-says — all 25 accesses of the spec are present. -/
-example : fragL ⟨true, true, true⟩ bodyWide = true ∧
+/-- `C01_partial_flow` is not vacuous under the REAL plugin table `env0`: `bodyWide` is in the full
+fragment relative to the dirty keys of `root1`, its analysis succeeds (`Cls` is a class: the
+class-instance `return` path is taken), and — as the theorem says — all 25 accesses of the spec are
+present. -/
+example : fragL (dirtyKeys env0 (S "m") root1) ⟨true, true, true⟩ bodyWide = true ∧
     (accessesL bodyWide).length = 25 ∧
     (accessesL bodyWide).all (fun a =>
-      presentR a (analyse envNP (S "m") root0
+      presentR a (analyse env0 (S "m") root1
         (P ["a", "c", "t", "xs", "y", "o", "q", "es"]) bodyWide)) = true := by decide +kernel
 
+/-- a body calling `sorted(...)` / `getattr(...)` is (rightly) outside the fragment. -/
+example : fragL (dirtyKeys env0 (S "m") root1) ⟨true, true, true⟩ bodySorted = false ∧
+    fragL (dirtyKeys env0 (S "m") root1) ⟨true, true, true⟩ bodyDefaultdict = false := by
+  decide +kernel
+
 /-- the smaller fragments are inhabited too. -/
-example : fragL ⟨true, false, false⟩ [expr (callKw (att (nm "a") "m") [att (nm "b") "c"] "k" (nm "d"))] = true ∧
-    fragL ⟨true, true, false⟩ [.assign [nm "x" .store, .seq (S "Tuple") [nm "p" .store, nm "q" .store] .store]
-      (call (nm "Cls") [nm "b"])] = true := by decide
+example : fragL (dirtyKeys env0 (S "m") root1) ⟨true, false, false⟩
+      [expr (callKw (att (nm "a") "m") [att (nm "b") "c"] "k" (nm "d"))] = true ∧
+    fragL (dirtyKeys env0 (S "m") root1) ⟨true, true, false⟩
+      [.assign [nm "x" .store, .seq (S "Tuple") [nm "p" .store, nm "q" .store] .store]
+        (call (nm "Cls") [nm "b"])] = true := by decide +kernel
 
 /-- `C01_unnameable_base_visited` on `(a + b).x`. -/
 example : (binOp (nm "a") (nm "b")).isNameable = false := rfl
